@@ -1,6 +1,7 @@
 package props
 
 import (
+	"bytes"
 	"fmt"
 	"strings"
 	"testing"
@@ -17,6 +18,33 @@ type c03Step struct {
 	Op string `json:"op"` // render | reparse
 	I  int    `json:"i"`  // template
 	J  int    `json:"j"`  // environment
+	// entry point: 0 RenderString, 1 Render, 2 FRender, 3 Engine.ParseAndRenderString, 4 Engine.ParseAndRender, 5 Engine.ParseAndFRender
+	Via int `json:"via,omitempty"`
+}
+
+// two distinct struct types with the same printed name ("props.rec") whose
+// liquid tags name their fields crosswise
+func c03RecA() any {
+	type rec struct {
+		A string `liquid:"name"`
+		B string `liquid:"other"`
+	}
+	return rec{"a-name", "a-other"}
+}
+
+func c03RecB() any {
+	type rec struct {
+		A string `liquid:"other"`
+		B string `liquid:"name"`
+	}
+	return rec{"b-other", "b-name"}
+}
+
+// c03Extras adds the Go-only values every environment carries.
+func c03Extras(env map[string]any) map[string]any {
+	env["p1"], env["p2"] = c03RecA(), c03RecB()
+	env["dm"] = map[string]any{"d": hx.Drop{V: "dropped"}, "dd": hx.Drop{V: hx.Drop{V: []any{1, 2}}}, "plain": 1}
+	return env
 }
 
 type c03Case struct {
@@ -25,6 +53,7 @@ type c03Case struct {
 	Steps     []c03Step     `json:"steps"`
 	Hy        [][]bool      `json:"hy,omitempty"`  // whitespace-control hyphens per template
 	Raw       []string      `json:"raw,omitempty"` // further templates given as source text
+	RawWant   []string      `json:"raw_want,omitempty"` // what Raw[i] renders to with any environment ("" = not fixed)
 }
 
 const c03Probe = "{{ v1 }}|{{ v2 }}|{{ v3 }}|{{ my-var }}|{{ c1 }}|{{ c2 }}|{{ ok? }}|{{ i }}|{{ j }}|{{ it }}|{{ forloop }}|{{ forloop.index }}|{{ n }}|{{ s }}|{{ a | join: ',' }}|{{ x | join: ',' }}"
@@ -57,15 +86,43 @@ var c03History = hx.Define("c03.history", func(c *c03Case, s *hx.Sub) *hx.Violat
 	envs := make([]map[string]any, len(c.Envs))
 	prints := make([]string, len(c.Envs))
 	for j, b := range c.Envs {
-		envs[j] = b.Realise()
+		envs[j] = c03Extras(b.Realise())
 		prints[j] = hx.Fingerprint(envs[j])
 	}
-	render := func(t *liquid.Template, env map[string]any) (res string, pi *hx.PanicInfo) {
+	renderVia := func(via int, e *liquid.Engine, t *liquid.Template, src string, env map[string]any) (res string, pi *hx.PanicInfo) {
 		pi = hx.Guard(func() {
-			out, err := t.RenderString(env)
+			var out string
+			var err liquid.SourceError
+			switch via {
+			case 1:
+				var b []byte
+				b, err = t.Render(env)
+				out = string(b)
+			case 2:
+				var w bytes.Buffer
+				if err = t.FRender(&w, env); err == nil {
+					out = w.String()
+				}
+			case 3:
+				out, err = e.ParseAndRenderString(src, env)
+			case 4:
+				var b []byte
+				b, err = e.ParseAndRender([]byte(src), env)
+				out = string(b)
+			case 5:
+				var w bytes.Buffer
+				if err = e.ParseAndFRender(&w, []byte(src), env); err == nil {
+					out = w.String()
+				}
+			default:
+				out, err = t.RenderString(env)
+			}
 			res = resultString(out, errOrNil(err))
 		})
 		return
+	}
+	render := func(t *liquid.Template, env map[string]any) (string, *hx.PanicInfo) {
+		return renderVia(0, nil, t, "", env)
 	}
 	first := map[[2]int]string{}
 	pristine := map[[2]int]string{}
@@ -91,7 +148,7 @@ var c03History = hx.Define("c03.history", func(c *c03Case, s *hx.Sub) *hx.Violat
 			tpls[i] = t
 			continue
 		}
-		got, pi := render(tpls[i], envs[j])
+		got, pi := renderVia(st.Via, eng, tpls[i], srcs[i], envs[j])
 		if pi != nil {
 			return hx.V("panic@"+pi.Site, "%q: %v", srcs[i], pi)
 		}
@@ -102,7 +159,10 @@ var c03History = hx.Define("c03.history", func(c *c03Case, s *hx.Sub) *hx.Violat
 			if err != nil {
 				return hx.V("harness-error", "fresh parse: %v", err)
 			}
-			pristine[key], _ = render(ft, c.Envs[j].Realise())
+			pristine[key], _ = render(ft, c03Extras(c.Envs[j].Realise()))
+		}
+		if r := i - len(c.Templates); r >= 0 && r < len(c.RawWant) && c.RawWant[r] != "" && got != resultString(c.RawWant[r], nil) {
+			return hx.V("c03:depends-on-history", "step %d: template %d %q gives %s; whatever was rendered before, it is to give %q%s", k+1, i, srcs[i], trunc(got, 300), c.RawWant[r], history(k))
 		}
 		if f, seen := first[key]; seen {
 			if got != f {
@@ -128,7 +188,7 @@ var c03History = hx.Define("c03.history", func(c *c03Case, s *hx.Sub) *hx.Violat
 		}
 		// no variable made by this render survives into the next one
 		pg, _ := render(probe, envs[j])
-		fresh, _ := render(probe, c.Envs[j].Realise())
+		fresh, _ := render(probe, c03Extras(c.Envs[j].Realise()))
 		if pg != fresh {
 			return hx.V("c03:state-survives", "step %d: after rendering template %d with environment %d a probe of the variables gives %s; with fresh bindings %s%s", k+1, i, j, trunc(pg, 300), trunc(fresh, 300), history(k))
 		}
@@ -178,6 +238,13 @@ func TestC03(t *testing.T) {
 		for i, n := 0, rapid.IntRange(0, 2).Draw(t, "ndate"); i < n; i++ {
 			c.Raw = append(c.Raw, "  {{ d"+fmt.Sprint(rapid.IntRange(1, 4).Draw(t, "dv"))+" | date: \""+rapid.SampledFrom(dateFmt).Draw(t, "dfmt")+"\" }} {{- n -}}")
 		}
+		c.RawWant = make([]string, len(c.Raw))
+		fixed := [][2]string{{"{{ p1.name }}", "a-name"}, {"{{ p2.name }}", "b-name"}, {"{{ p2.other }}/{{ p1.other }}", "b-other/a-other"}, {"{{ p1.name }}{{ p2.name }}", "a-nameb-name"},
+			{"{{ dm.d }}{% assign z = dm.dd | first %}{{ z }}", "dropped1"}, {"{% for kv in dm %}{{ kv[0] }}={{ kv[1] }};{% endfor %}", "d=dropped;dd=12;plain=1;"}}
+		for i, n := 0, rapid.IntRange(0, 3).Draw(t, "nfixed"); i < n; i++ {
+			f := rapid.SampledFrom(fixed).Draw(t, "fixed")
+			c.Raw, c.RawWant = append(c.Raw, f[0]), append(c.RawWant, f[1])
+		}
 		dates := []string{"2020-05-03 04:05:06 +0000", "2020-05-03 04:05:06 EST", "2015-06-07", "March 14, 2016", "2017-07-09T10:40:00Z", "Jan 2 2006", "2020-05-03 04:05:06 +0100", "not a date"}
 		for j, n := 0, rapid.IntRange(2, 4).Draw(t, "nenvs"); j < n; j++ {
 			b := hx.GenBindings(t, prof)
@@ -204,12 +271,23 @@ func TestC03(t *testing.T) {
 				if sp.K != "nil" && rapid.IntRange(0, 9).Draw(t, "ptr") == 0 {
 					sp.Ptr = true
 				}
+				// Drops below the top level: as map values and array elements
+				if (sp.K == "map" || sp.K == "arr") && sp.R == "" {
+					for _, ch := range sp.E {
+						if ch.K != "nil" && rapid.IntRange(0, 7).Draw(t, "inner-drop") == 0 {
+							ch.Drop = 1
+						}
+					}
+				}
 			}
 			c.Envs = append(c.Envs, b)
 		}
 		steps := rapid.IntRange(2, 40).Draw(t, "nsteps")
 		for k := 0; k < steps; k++ {
 			st := c03Step{Op: "render", I: rapid.IntRange(0, len(c.Templates)+len(c.Raw)-1).Draw(t, "i"), J: rapid.IntRange(0, len(c.Envs)-1).Draw(t, "j")}
+			if rapid.Bool().Draw(t, "other-entry") {
+				st.Via = rapid.IntRange(1, 5).Draw(t, "via")
+			}
 			if rapid.IntRange(0, 9).Draw(t, "reparse") == 0 {
 				st.Op = "reparse"
 			}
